@@ -614,6 +614,60 @@ def rule_R18_array_pattern(text):
     return text, n
 
 
+def rule_R19_local_closures(text):
+    """R19 (opt-in, `//@ inlineclosures`): a local closure `let [mut] NAME = |p1[: T1], ..| BODY;` is removed and every later call
+    `NAME(a1, ..)` becomes `{ let p1[: T1] = a1; .. BODY }` (beta-reduction: a closure call evaluates its arguments and then its body;
+    the captured variables are the ones in scope at the definition, which - no re-binding in between being checked here - are the ones
+    in scope at the call).  Needed because Verus rejects closures that capture a mutable borrow."""
+    n = 0
+    while True:
+        m = rsscan.mask(text)
+        mt = re.search(r'\blet\s+(?:mut\s+)?(\w+)\s*=\s*\|([^|]*)\|\s*', m)
+        if not mt:
+            break
+        name = mt.group(1)
+        params = [q.strip() for q in text[mt.start(2):mt.end(2)].split(',') if q.strip()]
+        # closure body: up to the `;` at depth 0
+        q, d = mt.end(), 0
+        while q < len(m):
+            if m[q] in '([{':
+                d += 1
+            elif m[q] in ')]}':
+                d -= 1
+            elif m[q] == ';' and d == 0:
+                break
+            q += 1
+        cbody = text[mt.end():q].strip()
+        rest = text[q + 1:]
+        # a re-binding of a captured name or of NAME after the definition would change the meaning: refuse
+        if re.search(r'\blet\s+(?:mut\s+)?%s\b' % re.escape(name), rsscan.mask(rest)):
+            raise Inconclusive('inlineclosures: closure %s is re-bound' % name)
+        out, last = [], 0
+        k = 0
+        while True:
+            mr = rsscan.mask(rest)
+            cm = re.search(r'(?<![\w\.])%s\s*\(' % re.escape(name), mr[last:])
+            if not cm:
+                break
+            a = last + cm.start()
+            op = last + cm.end() - 1
+            cl = rsscan.match_close(mr, op)
+            parts = split_top_commas(mr, op + 1, cl)
+            args = [rest[x:y].strip() for x, y in parts]
+            if len(args) != len(params):
+                raise Inconclusive('inlineclosures: closure %s called with %d arguments' % (name, len(args)))
+            lets = ' '.join('let %s = %s;' % (pp, aa) for pp, aa in zip(params, args))
+            repl = '{ ' + lets + ' ' + cbody + ' }'
+            rest = rest[:a] + repl + rest[cl + 1:]
+            last = a + len(repl)
+            k += 1
+        text = text[:mt.start()] + '\n' * text[mt.start():q + 1].count('\n') + rest
+        n += 1
+        if n > 50:
+            break
+    return text, n
+
+
 RULES = [('R18', rule_R18_array_pattern), ('R10', rule_R10_gates), ('R16', rule_R16_copy), ('R7', rule_R7_sqrt), ('R5', rule_R5_strip), ('R2', rule_R2_unchecked), ('R34', rule_R34_asserts), ('R6', rule_R6_minmax)]
 
 
@@ -667,6 +721,7 @@ class FnEdit:
         self.ret = None
         self.spec = None     # (text, tmpl_line)
         self.loops = {}      # k -> (text, line)
+        self.inlineclosures = False
         self.expandreps = []  # (file, macro): macros with one `$( .. )*` repetition list, expanded in place
         self.loopall = None  # (text, line): loop annotation for every loop without its own `loop K`
         self.start = None
@@ -783,7 +838,13 @@ class Generator:
                 self._process_template(os.path.join(VX_DIR, tok[1]), self._kv(tok[2:]))
             elif cmd == 'simdsigs':
                 import simdsigs
+                self.Inconclusive = Inconclusive
                 for gl in simdsigs.generate(self, tok[1]):
+                    self.emit(gl, 'tmpl', rel, i + 1)
+            elif cmd == 'simdtrait':
+                import simdsigs
+                self.Inconclusive = Inconclusive
+                for gl in simdsigs.gen_trait(self, tok[1], tok[2], tuple(x for t3 in tok[3:] for x in t3.split(',') if x) or ('SseV',)):
                     self.emit(gl, 'tmpl', rel, i + 1)
             elif cmd == 'avxsigs':
                 import avxsigs
@@ -896,6 +957,8 @@ class Generator:
                     e.specof = tok[1]
                 elif c == 'untransmute':
                     e.untransmute = True
+                elif c == 'inlineclosures':
+                    e.inlineclosures = True
                 elif c == 'inline':
                     e.inlines.append((tok[1], tok[2]))
                 elif c == 'expandrep':
@@ -1352,6 +1415,11 @@ class Generator:
             text = self._inline_stmt_macros(text, edit.inlines)
         if edit.expandreps:
             text = self._expand_rep_macros(text, edit.expandreps)
+        if edit.inlineclosures:
+            text, k = rule_R19_local_closures(text)
+            if k:
+                self._count('R19', k)
+                self.log.append({'rule': 'R19', 'count': k})
         text = self._apply_rules(text, frel, line0)
         if edit.selfmut:
             # R15: `mut self` receiver (unsupported by Verus) -> `self` moved into a mutable local of the given name; every
